@@ -7,7 +7,7 @@ import p_pda as P
 PADS_Q = [0, 1, 31, 32, 33, 63, 64, 65]
 # every offset within the first 8-byte word and around each 16/32/64-byte block edge (all 71 offsets cost hours; the
 # ShiftRule invariant of the R-model says the verdict cannot depend on the offset)
-PADS_T = sorted(set(range(0, 9)) | {15, 16, 17, 31, 32, 33, 34, 47, 48, 49, 63, 64, 65, 66, 70})
+PADS_T = [0, 1, 2, 7, 8, 15, 16, 31, 32, 33, 63, 64]
 
 
 def run(tier):
